@@ -239,6 +239,7 @@ var allOps32 = []string{
 	"Contains", "IsEmpty", "Card", "Min", "Max", "Rank", "Select", "CardInRange", "IntersectsInterval",
 	"NextValue", "PreviousValue", "NextAbsentValue", "PreviousAbsentValue", "ToArray", "ChecksumEq", "ChecksumRT",
 	"Ser", "Load", "WriteFail", "Freeze", "FrozenRT", "LoadLegal", "DetachAll", "Scribble",
+	"Ser64", "Load64",
 }
 
 func profile(name string) Profile {
@@ -254,7 +255,7 @@ func profile(name string) Profile {
 	algq := []string{"AndCard", "OrCard", "Intersects", "Equals"}
 	agg := []string{"FastOr", "HeapOr", "ParOr", "ParHeapOr", "FastAnd", "ParAnd", "HeapXor", "AndAny"}
 	tr := []string{"FlipS", "AddOffset", "DenseRT", "BitSetRT"}
-	q := []string{"Contains", "IsEmpty", "Card", "Min", "Max", "Rank", "Select", "CardInRange", "IntersectsInterval", "ToArray", "ChecksumEq", "ChecksumRT"}
+	q := []string{"Contains", "IsEmpty", "Card", "Min", "Max", "Rank", "Select", "CardInRange", "IntersectsInterval", "ToArray", "ChecksumRT"}
 	nb := []string{"NextValue", "PreviousValue", "NextAbsentValue", "PreviousAbsentValue"}
 	set(3, "Build")
 	set(1, "BitmapOf", "New")
@@ -303,6 +304,26 @@ func profile(name string) Profile {
 		set(3, "RunOptimize", "Clone", "Detach")
 		set(2, alg...)
 		set(2, "Equals", "Card")
+		set(5, "Build")
+	case "parallel": // C12
+		set(12, "ParOr", "ParAnd", "ParHeapOr")
+		set(2, "FastOr", "FastAnd", "HeapOr")
+		set(2, mut...)
+		set(1, "RunOptimize", "Clone", "SetCOW")
+		set(5, "Build")
+	case "all64": // C17: the 64-bit bitmap under the same contract
+		set(5, "Add", "AddInt", "CheckedAdd", "Remove", "CheckedRemove", "AddMany", "AddRange", "RemoveRange", "Flip", "Clear")
+		set(3, "RunOptimize", "SetCOW", "Detach", "Clone")
+		set(5, alg...)
+		set(3, algq...)
+		set(4, "FastOr", "FastAnd", "ParOr", "FlipS")
+		set(2, "Contains", "IsEmpty", "Card", "Min", "Max", "Rank", "Select", "ToArray")
+		set(1, "Ser64", "Load64")
+		set(4, "Build")
+	case "serial64": // C18
+		set(8, "Ser64", "Load64")
+		set(3, "Add", "Remove", "AddRange", "RemoveRange", "Flip", "AddMany")
+		set(2, "RunOptimize", "Clone", "Or", "AndNot", "Xor")
 		set(5, "Build")
 	case "legal": // C06 read direction: every legal encoder choice
 		set(12, "LoadLegal")
@@ -373,7 +394,7 @@ func (g *Gen) atomSubset() []int {
 	for _, a := range g.u.Atoms {
 		if g.r.Float64() < p {
 			// keep huge filler atoms rare: they turn into tens of thousands of chunks
-			if a.W.cmp(numFromU64(1<<22)) > 0 && g.r.Intn(12) != 0 {
+			if a.W.cmp(numFromU64(1<<22)) > 0 && (g.r.Intn(12) != 0 || g.u.Bits == 64 && a.W.cmp(numFromU64(1<<27)) > 0) {
 				continue
 			}
 			out = append(out, a.ID)
@@ -397,8 +418,11 @@ func (g *Gen) cellRange() (int, int) {
 			if c1 <= m {
 				hi = g.u.CellLo[c1-1] - 1
 			}
-			if hi-lo > 1<<24 && g.r.Intn(25) != 0 && try < 20 {
+			if hi-lo > 1<<24 && (g.r.Intn(25) != 0 || g.u.Bits == 64 && hi-lo > 1<<27) && try < 200 {
 				continue
+			}
+			if g.u.Bits == 64 && hi-lo > 1<<27 {
+				return c0, c0 // give up: an empty range
 			}
 		}
 		return c0, c1
@@ -590,6 +614,10 @@ func (g *Gen) next(e *Exec) Call {
 			c.W = 2 + r.Intn(2)
 		}
 	case "DetachAll", "Scribble":
+	case "Ser64":
+		c.X, c.V = g.slot(), r.Intn(4)
+	case "Load64":
+		c.Dst, c.X, c.V, c.W, c.J = g.slot(), g.slot(), r.Intn(5), r.Intn(2), r.Intn(8)
 	}
 	return c
 }
@@ -612,9 +640,13 @@ func selectCands(e *Exec, x int, r *rand.Rand) []Num {
 		}
 	}
 	cands = append(cands, n, n.add(Num{1}), n.add(numFromU64(uint64(r.Intn(1000)))))
+	limit := numFromU64(0xFFFFFFFF)
+	if e.u.Bits == 64 {
+		limit = numFromU64(^uint64(0))
+	}
 	for i := range cands {
-		if cands[i].cmp(numFromU64(0xFFFFFFFF)) > 0 {
-			cands[i] = numFromU64(0xFFFFFFFF)
+		if cands[i].cmp(limit) > 0 {
+			cands[i] = limit
 		}
 	}
 	return cands
@@ -717,6 +749,8 @@ func texture(r *rand.Rand, lo, hi uint64, k int, style string) []iset {
 	return out
 }
 
+var conc64Note string
+
 var concWidths = []uint64{2, 3, 64, 65, 128, 1000, 4095, 4096, 4097, 8190, 8192, 8194, 12288, 20000, 65535, 65536, 65537, 131072, 200000}
 var concStyles = []string{"blocks", "comb", "stripes", "random"}
 
@@ -771,6 +805,18 @@ func concretise(st Structure, kind string, r *rand.Rand, bits int) (*Concretisat
 			tot += w
 		}
 		base = pick(r, []uint64{0, 65536, 0x7FFF0000, top + 1 - tot})
+	case "chunks": // every cell is one whole chunk, the first at key concBase (forced by the script)
+		for c := range widths {
+			widths[c] = 65536
+		}
+		base = concBase << 16
+		style = "blocks"
+	case "keyspread": // whole-chunk cells at the very top of the key space
+		for c := range widths {
+			widths[c] = 65536
+		}
+		base = (65536 - uint64(m)) << 16
+		style = pick(r, []string{"blocks", "stripes", "comb"})
 	case "top": // ends exactly at 2^bits
 		for c := range widths {
 			widths[c] = pick(r, concWidths)
@@ -819,6 +865,25 @@ func concretise(st Structure, kind string, r *rand.Rand, bits int) (*Concretisat
 	}
 	if bits == 32 && tot > top {
 		return nil, fmt.Errorf("structure too wide")
+	}
+	if bits == 64 && kind != "top" {
+		// place the structure relative to the 2^32 grid: inside a bucket, straddling a bucket edge,
+		// in the first or the last bucket
+		bucket := pick(r, []uint64{0, 1, 2, 0x7FFFFFFF, 0x80000000, 0xFFFFFFFE, 0xFFFFFFFF})
+		switch r.Intn(4) {
+		case 0: // as computed (bucket 0)
+		case 1:
+			base = bucket<<32 + base%(1<<32-tot%(1<<31)-1)
+		case 2: // straddle the lower edge of the bucket
+			if bucket > 0 {
+				base = bucket<<32 - tot/2
+			}
+		default: // end exactly at a bucket edge
+			if bucket > 0 {
+				base = bucket<<32 - tot
+			}
+		}
+		conc64Note = fmt.Sprintf("bucket=%d", bucket)
 	}
 	if base > top-tot+1 {
 		base = top - tot + 1
